@@ -86,8 +86,23 @@ def handler : Handler := fun op inp out =>
              else "no-presentation-returned"),
             fun (_ : Unit) => false)]))
       | some (gens, srels) =>
-        (m, verdict (pre g "input" t ++ [("base-is-a-row", fun (_ : Unit) => decide (base < t.size))] ++ corpus g ++
-          stabilizerClauses g.n g.rels t base gens srels g.fin))
+        let sv := verdict (pre g "input" t ++ [("base-is-a-row", fun (_ : Unit) => decide (base < t.size))] ++ corpus g ++
+          stabilizerClauses g.n g.rels t base gens srels g.fin)
+        -- The property fixes the returned presentation only as *a presentation of the stabiliser*:
+        -- which Schreier transversal (spanning tree of the coset table) it is read off is free (the
+        -- proved model walks breadth-first; found by the harmless-rewrite study with a depth-first
+        -- tree).  Whether the implementation's generators and relators present the same subgroup as
+        -- the model's is exactly what the Spec clauses decide (generators fix the base row, coset
+        -- enumeration over them reproduces the re-based table, relators hold, and abelianisation and
+        -- low-index profile agree with the independent Reidemeister–Schreier presentation, with
+        -- which the model's presentation agrees by `stabilizer_spec`).  When they all hold and the
+        -- model answered, the implementation's tokens are echoed as the model payload; otherwise
+        -- the model's presentation is printed and the orchestrator reports the disagreement.
+        let answered := match Stab.stabilizer base (g.rels.map FW.new) (Table.ofView g.n t) with
+          | .ok _ => true
+          | _ => false
+        let m := if sv == ok && answered then joinToks out.toList else m
+        (m, sv)
   | "core" =>
     match run (do let g ← parseGrp; let t ← P.intss; let s ← P.nat; pure (g, t, s)) inp with
     | none => bad
